@@ -402,11 +402,12 @@ impl SpecEncoder {
         v
     }
 
-    /// Encodes one message as a list of chunks (so that callers may interleave them).
-    pub fn encode(&mut self, csid: u32, form: u8, fmt: u8, m: &Msg) -> Vec<Vec<u8>> {
+    /// Starts a message: updates the per-csid header state and returns an in-flight message whose
+    /// chunks are produced one at a time (so that callers may interleave messages on different
+    /// chunk streams and change the chunk size in between).
+    pub fn begin(&mut self, csid: u32, form: u8, fmt: u8, m: &Msg) -> InFlight {
         let prev = self.per.get(&csid).cloned().unwrap_or_default();
         let mut s = prev.clone();
-        let mut chunks = Vec::new();
         let mut head = basic_header(fmt, csid, form);
         let ext_val;
         match fmt {
@@ -449,30 +450,68 @@ impl SpecEncoder {
         if s.ext {
             head.extend_from_slice(&ext_val.to_be_bytes());
         }
-        let cs = self.chunk_size as usize;
-        let first_n = std::cmp::min(cs, m.payload.len());
-        let mut c0 = head;
-        c0.extend_from_slice(&m.payload[..first_n]);
-        chunks.push(c0);
-        let mut off = first_n;
-        while off < m.payload.len() {
-            let n = std::cmp::min(cs, m.payload.len() - off);
-            let mut c = basic_header(3, csid, form);
-            if s.ext {
-                c.extend_from_slice(&ext_val.to_be_bytes());
-            }
-            c.extend_from_slice(&m.payload[off..off + n]);
-            chunks.push(c);
-            off += n;
-        }
+        let ext = s.ext;
         self.per.insert(csid, s);
-        if m.type_id == 1 && m.payload.len() >= 4 {
-            let v = be32(&m.payload);
+        InFlight {
+            csid,
+            form,
+            ext,
+            ext_val,
+            first_header: Some(head),
+            payload: m.payload.clone(),
+            off: 0,
+            is_set_chunk: if m.type_id == 1 && m.payload.len() >= 4 { Some(be32(&m.payload)) } else { None },
+        }
+    }
+
+    /// Encodes one message as a list of chunks (so that callers may interleave them).
+    pub fn encode(&mut self, csid: u32, form: u8, fmt: u8, m: &Msg) -> Vec<Vec<u8>> {
+        let mut f = self.begin(csid, form, fmt, m);
+        let mut chunks = Vec::new();
+        while !f.done() {
+            chunks.push(f.next_chunk(self.chunk_size));
+        }
+        if let Some(v) = f.is_set_chunk {
             if v >= 1 && v <= 0x7FFF_FFFF {
                 self.chunk_size = v;
             }
         }
         chunks
+    }
+}
+
+#[derive(Clone, Debug)]
+pub struct InFlight {
+    pub csid: u32,
+    pub form: u8,
+    pub ext: bool,
+    pub ext_val: u32,
+    pub first_header: Option<Vec<u8>>,
+    pub payload: Vec<u8>,
+    pub off: usize,
+    pub is_set_chunk: Option<u32>,
+}
+
+impl InFlight {
+    pub fn done(&self) -> bool {
+        self.first_header.is_none() && self.off >= self.payload.len()
+    }
+
+    pub fn next_chunk(&mut self, chunk_size: u32) -> Vec<u8> {
+        let mut c = match self.first_header.take() {
+            Some(h) => h,
+            None => {
+                let mut c = basic_header(3, self.csid, self.form);
+                if self.ext {
+                    c.extend_from_slice(&self.ext_val.to_be_bytes());
+                }
+                c
+            }
+        };
+        let n = std::cmp::min(chunk_size as usize, self.payload.len() - self.off);
+        c.extend_from_slice(&self.payload[self.off..self.off + n]);
+        self.off += n;
+        c
     }
 }
 
